@@ -413,7 +413,13 @@ impl Gen {
                 self.vars.push(name);
             } else if r < 96 && !self.vars.is_empty() {
                 let name = self.vars[self.rng.below(self.vars.len())].clone();
-                if !st.is_empty() && self.rng.chance(1, 2) {
+                if self.rng.chance(1, 6) {
+                    // store back a value that is equal but not identical (other tags): the cell changes all the same
+                    out.push(name.clone());
+                    out.push(["1 \"k\" insert-tag", "{ } with-tags", "{ 2 \"j\" } with-tags", "\"k\" remove-tag"][self.rng.below(4)].into());
+                    out.push("!".into());
+                    out.push(name);
+                } else if !st.is_empty() && self.rng.chance(1, 2) {
                     out.push("!".into());
                     out.push(name);
                     st.pop();
